@@ -93,6 +93,25 @@ def gen(rng, sid):
     return sc
 
 
+def gen_nonretriable(rng, sid):
+    """one Produce reply carries a non-retriable error (MESSAGE_TOO_LARGE, CORRUPT_MESSAGE, INVALID_REQUIRED_ACKS)
+    while other batches are in flight or in retry backoff and flush()/stop() are in progress: that batch's futures
+    fail with the error, every other accepted record still resolves, flush()/stop() wait for all and do not raise"""
+    sc = gen(rng, sid)
+    sc["partitions"] = max(2, sc["partitions"])
+    for t in sc["tasks"]:
+        for it in t:
+            if "p" in it:
+                it["p"] = rng.randrange(sc["partitions"])
+    faults = dict(sc.get("faults") or {})
+    faults[str(rng.randrange(1, 6))] = {"kind": "error", "code": rng.choice([10, 2, 21])}
+    faults[str(rng.randrange(1, 8))] = {"kind": "error", "code": rng.choice(prodsim.RETRIABLE_CODES)}
+    sc["faults"] = faults
+    if not sc.get("flush_after"):
+        sc["flush_after"] = [rng.choice([0.002, 0.011, 0.05, 0.101])]
+    return sc
+
+
 def gen_parked_stop(rng, sid):
     """stop() while send() calls are parked on a full batch that cannot be drained (its partition has a batch in
     flight): whatever send() returned a future for must still be resolved; a parked send() may only raise"""
@@ -234,12 +253,18 @@ def monitor(ck, sc, r):
         pass
     for fl in ([r["flush"]] if r.get("flush") else []) + (r.get("flushes") or []):
         if fl.get("unresolved_after", 0):
-            viol("flush() returned while previously accepted records were unresolved", {"flush": fl})
+            viol("flush() returned while previously accepted records were unresolved"
+                 + (f" (it raised {fl['exc']}, the error of one batch)" if fl.get("exc") else ""), {"flush": fl})
+        elif fl.get("exc"):
+            viol(f"flush() raised {fl['exc']}: the error of a record belongs to that record's future", {"flush": fl})
     stp = r.get("stop") or {}
     if stp.get("timeout"):
         viol("stop() did not return")
     elif stp.get("unresolved_after"):
-        viol("stop() returned while accepted records were unresolved", {"stop": stp})
+        viol("stop() returned while accepted records were unresolved"
+             + (f" (it raised {stp['exc']})" if stp.get("exc") else ""), {"stop": stp})
+    elif stp.get("exc"):
+        viol(f"stop() raised {stp['exc']}: the error of a record belongs to that record's future", {"stop": stp})
     if r.get("resolve_time", 0) > sc.get("resolve_bound", 60.0):
         viol("futures not resolved within the bound after faults ceased", {"resolve_time": r["resolve_time"]})
     return bad
@@ -276,6 +301,8 @@ def run(ck: Check):
         scs.append(gen(rng, i))
     for i in range(ck.n(40, 400)):
         scs.append(gen_parked_stop(rng, 100000 + i))
+    for i in range(ck.n(40, 400)):
+        scs.append(gen_nonretriable(rng, 200000 + i))
     results = prodsim.run_scenarios(scs, timeout=ck.n(600, 2400))
     nbad = 0
     hist = {"acks0": 0, "idempotent": 0, "produce_version_cap": {}, "log_append_time": 0, "flush": 0, "failed_runs": 0}
@@ -303,7 +330,9 @@ def run(ck: Check):
         for s in r["sends"]:
             ck.count(key=(sc["id"], s["rid"]), nontrivial=bool(sc.get("faults")) or True,
                      sample={"scenario": sc["id"], "send": s} if s.get("md") and len(ck.cov["samples"]) < 5 else None)
-        if sc["idempotent"]:
+        nonretriable = any(f["kind"] == "error" and f.get("code") not in prodsim.RETRIABLE_CODES
+                           for f in (sc.get("faults") or {}).values())
+        if sc["idempotent"] and not nonretriable:      # Producer.v models retriable faults only
             for part in range(sc["partitions"]):
                 tr, verdicts = prodsim.project(r, part)
                 tr = tr + [("FlushRet",)]     # stop() returned: nothing may be queued or in flight
